@@ -113,6 +113,21 @@ def write_file(sc, text, ext, comp):
     return p
 
 
+def _zip_members(z, parts, ext, fmt, rnd):
+    """members at the top level or inside folders, with or without the explicit directory entries that `zip -r` and
+    shutil.make_archive write ('more/' is an entry of its own, without content)"""
+    folders = rnd.choice([[""], [""], ["", "more/"], ["data/"], ["", "a/b/"]])
+    seen = set()
+    for i, part in enumerate(parts):
+        folder = folders[i % len(folders)]
+        if folder and folder not in seen and rnd.random() < .5:
+            seen.add(folder)
+            for k in range(1, folder.count("/") + 1):
+                z.writestr("/".join(folder.split("/")[:k]) + "/", "")
+        seen.add(folder)
+        z.writestr("%sm%d.%s" % (folder, i, ext), serialize(part, fmt, rnd))
+
+
 def delivery_kwargs(T, d, sc, rnd, port):
     """d: {fmt, carrier, parts, comp} -> Shaper graph kwargs"""
     fmt, carrier, comp = d["fmt"], d["carrier"], d["comp"]
@@ -128,8 +143,7 @@ def delivery_kwargs(T, d, sc, rnd, port):
         if comp == "zip":
             p = sc.path(ext + ".zip")
             with zipfile.ZipFile(p, "w") as z:
-                for i, part in enumerate(split(T, d["parts"], rnd)):
-                    z.writestr("m%d.%s" % (i, ext), serialize(part, fmt, rnd))
+                _zip_members(z, split(T, d["parts"], rnd), ext, fmt, rnd)
             kw["graph_file_input"] = p
         else:
             kw["graph_file_input"] = write_file(sc, serialize(T, fmt, rnd), ext, comp)
@@ -139,8 +153,7 @@ def delivery_kwargs(T, d, sc, rnd, port):
             for part in split(T, d["parts"], rnd):
                 p = sc.path(ext + ".zip")
                 with zipfile.ZipFile(p, "w") as z:
-                    for i, sub in enumerate(split(part, 2, rnd)):
-                        z.writestr("m%d.%s" % (i, ext), serialize(sub, fmt, rnd))
+                    _zip_members(z, split(part, 2, rnd), ext, fmt, rnd)
                 ps.append(p)
             kw["graph_list_of_files_input"] = ps
         else:
@@ -519,6 +532,8 @@ def check_c15(out, tier):
         elif r_ < .75:
             cfg["mode"] = "classes"
             cfg["targets"] = rnd.sample(classes, rnd.randint(1, len(classes)))
+            cfg["spelling"] = rnd.choice(["full", "bracket", "prefixed"])      # class names are accepted in the three spellings
+            cfg["nsDict"] = gen.NSDICT
             if rnd.random() < .5:
                 # instances_cap not smaller than any target class: every instance is still selected, whatever order the endpoint
                 # answers in, so the result must not change; a cap equal to the class sizes makes the tracker stop reading early
@@ -664,6 +679,17 @@ def check_c19(out, tier):
             cfg["items"] = pipeline.shape_map_items(rnd, T, classes, wildcards=True)
             cfg["nsDict"] = gen.NSDICT
         c = gen.case("c19e%d" % i, T, **cfg)
+        c["endpoint"] = True
+        cases.append(c)
+    # incoming links from several subjects to the instances of one class, behind the endpoint, with inverse paths and example
+    # annotations: the first-seen example of a '^' constraint shows the order in which the targets were asked for incoming triples
+    for i in range(10 * k):
+        T = gen.sources_graph(rnd)
+        cfg = gen.switches(rnd, inverse=True)
+        cfg["examples"] = rnd.choice(["all", "cons"])
+        if rnd.random() < .5:
+            cfg.update(mode="classes", targets=[M.EX + "T"])
+        c = gen.case("c19x%d" % i, T, **cfg)
         c["endpoint"] = True
         cases.append(c)
     # the target classes listed in a file (file_target_classes), several classes, local and behind the endpoint
